@@ -44,6 +44,11 @@ class CallMixin:
                 # the result of the k-th recorded call is a function of (its arguments, k): specs name it call_result(key, k)
                 rv = uf("rec:" + key, V, IntS, V)(ev, Q.Length(cur.t))
                 rspec = getattr(self.contract, "record_result_specs", {}).get(key)
+                # a recorded callee that also has a local contract declaring exceptions may raise them (the event stays logged)
+                lcr = (getattr(self.contract, "local_contracts", None) or {}).get(key)
+                if lcr is not None:
+                    for exc in lcr.exc_:
+                        self.may_raise(st, self.fresh_term(st, "raises", BoolS), exc, f"{key} line {getattr(node, 'lineno', '?')}")
                 return unbox(rspec, rv, st) if rspec is not None else S_val(rv)
         lc = getattr(self.contract, "local_contracts", None)
         if lc:
